@@ -131,6 +131,23 @@ PENDING_REASON = 'check not built yet (DESIGN.md gives the planned static clause
 NOT_APPLICABLE = {}
 
 
+SHARED_DESC = {
+    'month_records': 'lunar month records (stored leap table order/uniqueness/intercalation rhythm, solstice-month anchoring against a uniform-lunation model, transparency of the month memo over a collision-closed key set, memo-cell constructor / foreign-write rules)',
+    'jd_tables': 'civil date <-> day number (additivity lemma + both Julian-day formulas at the ends of all 119,988 months)',
+    'solver_structure': 'day-level term / new-moon solvers fall back to the precise solver near civil midnight; full series in the last Newton step',
+    'effect_inventory': 'inventory of process-wide mutable state from MIR (no static with interior mutability, thread_local or unsafe beyond the frozen list)',
+}
+
+
+def shared_of(pid):
+    import re
+    p = os.path.join(VERIF, 'checker', 'rules', pid.lower() + '.py')
+    txt = open(p, encoding='utf-8').read()
+    if pid == 'C04':
+        txt += open(os.path.join(VERIF, 'checker', 'rules', 'c03.py'), encoding='utf-8').read()
+    return sorted(set(re.findall(r"ctx\.include\('(\w+)'", txt)))
+
+
 def main():
     props = [json.loads(l) for l in open(os.path.join(VERIF, 'properties.jsonl'), encoding='utf-8')]
     checks = []
@@ -146,7 +163,7 @@ def main():
                 'evidence_file': 'evidence/%s.json' % pid,
                 'replay_cmd_template': './check %s --replay {path}' % pid,
                 'engine': 'checker',
-                'level_claimed': {'category': 'other', 'text': text, 'design_ref': ref},
+                'level_claimed': {'category': 'other', 'text': text + ' Shared rule bundles included (computed once per source hash): ' + '; '.join('%s = %s' % (n, SHARED_DESC.get(n, n)) for n in shared_of(pid)) + '.', 'design_ref': ref},
                 'level_note': note,
                 'technique': tech,
             })
